@@ -133,13 +133,14 @@ class Rope(object):
     """append-only byte buffer with symbolic capacity: list of (guard, bytes)
     segments; the content is the concatenation of the segments whose guard
     holds"""
-    __slots__ = ('segs', 'cap', 'grow', 'checked')
+    __slots__ = ('segs', 'cap', 'grow', 'checked', 'lenterm')
 
     def __init__(self, cap, checked=True):
         self.segs = []
         self.cap = cap
         self.grow = []
         self.checked = checked
+        self.lenterm = bv(0, 64)
 
 
 class RopeStr(object):
@@ -695,7 +696,7 @@ class Executor(object):
                 o.val = self.updated(o.val, path, val, gg)
             if o.kind in ('global', 'pool'):
                 self.stores_log.append((gg, o, self.stack[-1].fn.name if self.stack else '?'))
-                if o.kind == 'global' and getattr(self, 'harness', None) is not None:
+                if o.kind == 'global' and getattr(self, 'harness', None) is not None and str(o.site).startswith('github.com/pandatix/'):
                     # after initialisation nothing may write package-level state (C14: confinement)
                     self.oblige('confinement', gg, 'store to package-level variable %s' % (o.site,), ins)
 
@@ -853,17 +854,25 @@ class Executor(object):
         pairwise equivalent conditions (sufficient for equality of the strings; if the two
         sequences cannot be aligned the comparison is not supported -> inconclusive)"""
         fa, fb = self.rope_flat(a), self.rope_flat(b)
-        if len(fa) != len(fb):
-            raise Unsupported('ropes of different shape (%d vs %d conditional bytes)' % (len(fa), len(fb)))
         cs = []
-        for (ga, ba), (gb, bb) in zip(fa, fb):
-            if ba is not bb:
-                e = Eq(ba, bb)
-                if e is FALSE:
-                    raise Unsupported('ropes of different shape (different bytes at the same position)')
+        for k, ((ga, ba), (gb, bb)) in enumerate(zip(fa, fb)):
+            e = TRUE if ba is bb else Eq(ba, bb)
+            if e is FALSE:
+                # the two buffers diverge here: up to this point they emit the same bytes under equivalent
+                # conditions; an input under which both emit their (different) k-th byte makes the strings
+                # differ.  Equality can no longer be concluded structurally: unsat = inconclusive.
+                self.incomplete_reason = 'buffers of different shape: only a divergence witness is searched'
+                cs.append(Not(And(ga, gb)))
+                return And(*cs)
+            if e is not TRUE:
                 cs.append(Or(Not(ga), e))
             if ga is not gb:
                 cs.append(Eq(ga, gb))
+        if len(fa) != len(fb):
+            # one buffer has extra conditional bytes: they must never be emitted
+            self.incomplete_reason = 'buffers of different length: the surplus bytes must be unreachable'
+            for g, b_ in (fa[len(fb):] + fb[len(fa):]):
+                cs.append(Not(g))
         return And(*cs)
 
     # ---------------------------------------------------------- operand evaluation
@@ -1008,8 +1017,10 @@ class Executor(object):
         self.stats['split_calls'] += len(res)
         return merge_many(res)
 
-    def run_function(self, fn, args, guard):
+    def run_function(self, fn, args, guard, bindings=()):
         act = Activation(fn)
+        for fv, b in zip(fn.freevars, bindings):
+            act.env[fv['n']] = b
         if self.name_guards and TM.gsize(guard) > self.name_guards:
             guard = TM.Named(guard)
         self.funcs_encoded[fn.name] += 1
@@ -1767,8 +1778,7 @@ class Executor(object):
             return self.builtin(act, f.name[8:], args, guard, ins, c)
         if f.bindings:
             fn = self.p.funcs[f.name]
-            a = Activation(fn)
-            raise Unsupported('closure call with bindings')
+            return self.run_function(fn, args, guard, f.bindings)
         return self.call_function(f.name, args, guard, ins)
 
     def builtin(self, act, name, args, guard, ins, c):
@@ -1778,7 +1788,7 @@ class Executor(object):
                 return self.str_len(x)
             if isinstance(x, Slc):
                 if len(x.alts) == 1 and x.alts[0][1] is not None and isinstance(x.alts[0][1].val, Rope):
-                    return self.rope_len(x.alts[0][1].val.segs)
+                    return x.alts[0][1].val.lenterm
                 return merge_many([(g, bv(ln, 64)) for g, o, off, ln, cap in x.alts])
             raise Unsupported('len of %r' % type(x))
         if name == 'cap':
@@ -1808,16 +1818,20 @@ class Executor(object):
                     gg = And(guard, g)
                     if gg is not FALSE and len(c):
                         rope.segs.append((gg, c))
+                srclen = self.str_len(src)
             elif isinstance(src, Slc):
                 for g, so, off, ln, cap in src.alts:
                     gg = And(guard, g)
                     if gg is not FALSE and ln:
                         rope.segs.append((gg, tuple(so.val.e[off:off + ln])))
+                srclen = merge_many([(g, bv(ln, 64)) for g, so, off, ln, cap in src.alts])
             else:
                 raise Unsupported('append source')
+            # running length: one conditional addend per append (alternatives of equal length fold to a constant)
+            rope.lenterm = bvop('bvadd', rope.lenterm, Ite(guard, srclen, bv(0, 64)))
             # growth obligation: total length must stay within capacity (else append reallocates)
             if rope.checked:
-                ln = self.rope_len(rope.segs)
+                ln = rope.lenterm
                 rope.grow.append((guard, ln, ins.get('pos', '') if ins else ''))
                 self.oblige('growth', And(guard, Not(bvcmp('sle', ln, rope.cap))), 'append beyond the capacity computed for the buffer (reallocation)', ins)
             return dst
@@ -1911,13 +1925,26 @@ def stub_alloccount(ex, args, guard, ins):
         if inpool:
             continue
         pos = site[3] if isinstance(site, tuple) and len(site) > 3 else ''
-        fl = ':'.join(pos.split(':')[:2])
+        fl = ':'.join(pos.split(':')[:3])
         if ex.escaping is not None and fl not in ex.escaping:
             continue
         if not pos.startswith('/repo/'):
             continue
         tot = bvop('bvadd', tot, Ite(g, bv(1, 64), bv(0, 64)))
     return tot
+
+
+def stub_allocs(ex, args, guard, ins):
+    """verif.Allocs(f): number of heap allocations f performs (escaping allocation sites of the module
+    outside sync.Pool's New; appends beyond capacity are separate 'growth' obligations)"""
+    before = stub_alloccount(ex, [], guard, ins)
+    f = args[0]
+    if not isinstance(f, Fn):
+        raise Unsupported('Allocs of a non-function')
+    fn = ex.p.funcs[f.name]
+    ex.run_function(fn, [], guard, f.bindings)
+    after = stub_alloccount(ex, [], guard, ins)
+    return bvop('bvsub', after, before)
 
 
 def stub_nondet_bytes(ex, args, guard, ins):
@@ -1976,6 +2003,22 @@ def stub_assume(ex, args, guard, ins):
 def stub_assert(ex, args, guard, ins):
     lab = _label(args[1])
     ex.stats['asserts'] += 1
+    inc = getattr(ex, 'incomplete_reason', None)
+    ex.incomplete_reason = None
+    parts = TM._lits(args[0])
+    if inc:
+        ex.obligations.append({'kind': 'assert', 'viol': And(guard, Not(args[0])), 'label': lab, 'pos': (ins or {}).get('pos', ''),
+                               'fn': ex.stack[-1].fn.name if ex.stack else '', 'cond': args[0], 'guard': guard, 'incomplete': inc})
+        return None
+    if len(parts) > 12:
+        # a big conjunction (e.g. the byte-wise comparison of two buffers) is discharged conjunct by conjunct
+        pos = (ins or {}).get('pos', '')
+        fn = ex.stack[-1].fn.name if ex.stack else ''
+        for k, c in enumerate(sorted(parts, key=lambda t: t.id)):
+            ex.obligations.append({'kind': 'assert-part', 'viol': And(guard, Not(c)), 'label': '%s [conjunct %d/%d]' % (lab, k + 1, len(parts)), 'pos': pos, 'fn': fn})
+        # reachability witness for the whole assertion
+        ex.obligations.append({'kind': 'assert', 'viol': FALSE, 'label': lab + ' [reachability of the assertion]', 'pos': pos, 'fn': fn, 'cond': TRUE, 'guard': guard})
+        return None
     ex.obligations.append({'kind': 'assert', 'viol': And(guard, Not(args[0])), 'label': lab,
                            'pos': (ins or {}).get('pos', ''), 'fn': ex.stack[-1].fn.name if ex.stack else '',
                            'cond': args[0], 'guard': guard})
@@ -2145,6 +2188,7 @@ STUBS = {
     'verifharness/verif.NondetBytes': stub_nondet_bytes,
     'verifharness/verif.ByteBuf': stub_bytebuf,
     'verifharness/verif.AllocCount': stub_alloccount,
+    'verifharness/verif.Allocs': stub_allocs,
     'verifharness/verif.NondetBool': stub_nondet_bool,
     'verifharness/verif.NondetInt': stub_nondet_int,
     'verifharness/verif.NondetFloat64': stub_nondet_float,
